@@ -243,6 +243,73 @@ func scenarios() map[string]func(seed uint64, nG, iters int) {
 			{"Partition.String", func(*rand.Rand) { keep(pa.String()) }},
 		})
 	}
+	// ---- independent instances used side by side: anything they share behind the scenes (pre-computed tables,
+	// default helper functions) is exercised with limits on both sides of the pre-computed range
+	pairSample := func(l core.Limit) func(*rand.Rand) {
+		return func(r *rand.Rand) {
+			e := l.EstimatedLimit()
+			l.OnSample(time.Now().UnixNano(), 1+r.Int64N(1e6), e/2+r.IntN(e+2), r.IntN(50) == 0)
+		}
+	}
+	pair := func(name string, mk func(initial int) core.Limit) {
+		m[name] = func(s uint64, g, n int) {
+			var ops []op
+			for i, initial := range []int{40, 2500, 1000000} {
+				l := mk(initial)
+				ops = append(ops, op{fmt.Sprintf("instance%d.OnSample", i), pairSample(l)}, op{fmt.Sprintf("instance%d.EstimatedLimit", i), func(*rand.Rand) { _ = l.EstimatedLimit() }})
+			}
+			hammer(name, s, g, n, ops)
+		}
+	}
+	pair("limit.Gradient.independent-instances", func(initial int) core.Limit {
+		return limit.NewGradientLimitWithRegistry("x", initial, 1, 1<<30, 0.2, nil, 2, 50, nil, nil)
+	})
+	pair("limit.Gradient2.independent-instances", func(initial int) core.Limit {
+		l, err := limit.NewGradient2Limit("x", initial, 1<<30, 1, nil, 0.2, 100, nil, nil)
+		if err != nil {
+			panic(err)
+		}
+		return l
+	})
+	pair("limit.Vegas.independent-instances", func(initial int) core.Limit {
+		return limit.NewVegasLimitWithRegistry("x", initial, nil, 1<<30, 1, nil, nil, nil, nil, nil, 5, nil, nil)
+	})
+	// ---- strategies (re)built from partitions that other goroutines can already see (the partitions are public
+	// objects with their own accessors and gauges)
+	m["strategy.Predicate.built-from-visible-partitions"] = func(s uint64, g, n int) {
+		var ps []*strategy.PredicatePartition
+		for _, k := range []string{"a", "b"} {
+			ps = append(ps, strategy.NewPredicatePartitionWithMetricRegistry(k, 0.3, matchers.StringPredicateMatcher(k, false), core.EmptyMetricRegistryInstance))
+		}
+		pa := ps[0]
+		hammer("strategy.Predicate.built-from-visible-partitions", s, g, n/8+1, []op{
+			{"NewPredicatePartitionStrategy", func(r *rand.Rand) {
+				if _, err := strategy.NewPredicatePartitionStrategyWithMetricRegistry(ps, int32(1+r.IntN(20)), core.EmptyMetricRegistryInstance); err != nil {
+					panic(err)
+				}
+			}},
+			{"Partition.Limit", func(*rand.Rand) { _ = pa.Limit() }},
+			{"Partition.BusyCount", func(*rand.Rand) { _ = pa.BusyCount() }},
+			{"Partition.IsLimitExceeded", func(*rand.Rand) { _ = pa.IsLimitExceeded() }},
+			{"Partition.String", func(*rand.Rand) { keep(pa.String()) }},
+		})
+	}
+	m["strategy.Lookup.built-from-visible-partitions"] = func(s uint64, g, n int) {
+		pa := strategy.NewLookupPartitionWithMetricRegistry("a", 0.3, 1, core.EmptyMetricRegistryInstance)
+		pb := strategy.NewLookupPartitionWithMetricRegistry("b", 0.3, 1, core.EmptyMetricRegistryInstance)
+		hammer("strategy.Lookup.built-from-visible-partitions", s, g, n/8+1, []op{
+			{"NewLookupPartitionStrategy", func(r *rand.Rand) {
+				ps := map[string]*strategy.LookupPartition{"a": pa, "b": pb} // the map is the caller's own; the partitions are shared
+				if _, err := strategy.NewLookupPartitionStrategyWithMetricRegistry(ps, nil, int32(1+r.IntN(20)), core.EmptyMetricRegistryInstance); err != nil {
+					panic(err)
+				}
+			}},
+			{"Partition.Limit", func(*rand.Rand) { _ = pa.Limit() }},
+			{"Partition.BusyCount", func(*rand.Rand) { _ = pa.BusyCount() }},
+			{"Partition.IsLimitExceeded", func(*rand.Rand) { _ = pa.IsLimitExceeded() }},
+			{"Partition.String", func(*rand.Rand) { keep(pa.String()) }},
+		})
+	}
 	// ---- limiters and listeners
 	mkDefault := func(capacity int, l core.Limit) *limiter.DefaultLimiter {
 		if l == nil {
